@@ -16,3 +16,15 @@ PROP = dict(
              flags='-DC19_TSAN -DC19_BIN=\\"C19_observer_tsan\\"', quick=dict(scale=0.4), thorough=dict(scale=4, seeds=4))],
 )
 PROP['rule'] += ' Round-4 extension: histories also copy an observable (copy-construct, assign, notify the copy, destroy the copies) and copy an observer (optionally destroying the observable before the copy): the originals are unaffected and nothing dangles; a thread may draw a run of up to 70000 time stamps before a cross-thread history starts.'
+
+# the same properties across the modules of one application (two clang-built shared objects loaded with RTLD_LOCAL, the way
+# rkcommon::Library loads modules, both linked against a shared object made of the repository's TimeStamp.cpp)
+_TS = '{repo}/rkcommon/utility/TimeStamp.cpp'
+_SO = 'clang++ -std=gnu++17 -O1 -g -fPIC -shared -D{guard} {inc} '
+PROP['bins'].append(rc('C19_modules', 'harness/C19_modules.cpp', None, san='', libs='-ldl',
+    pre=['f=' + _TS + '; [ -f $f ] || f=/dev/null; ' + _SO + '-x c++ $f -o {out}_rkts.so',
+         _SO + '{verif}/harness/C19_module.cpp -o {out}_modA.so {out}_rkts.so',
+         _SO + '{verif}/harness/C19_module.cpp -o {out}_modB.so {out}_rkts.so'],
+    pre_deps=['rkcommon/utility/TimeStamp.cpp', 'rkcommon/utility/TimeStamp.h', 'rkcommon/utility/Observer.h', 'harness/C19_module.cpp'],
+    thorough=dict(scale=10, seeds=4)))
+PROP['rule'] += ' Multi-module extension (C19_modules): histories of <= 40 operations each executed by one of two clang-built shared objects loaded with dlopen(RTLD_LAZY|RTLD_LOCAL) (fresh / heap / renewed stamps, observables, observers, notify, poll): fresh values strictly increase across modules and wasNotified() follows the model whichever module created, notified and polled; non-trivial there = fresh stamps from both modules or a pending notification issued by another module than the one that polls or created the observer.'
